@@ -131,10 +131,11 @@ fn run_case(shape: String, n: usize, last: usize) -> String {
     let ns = t0.elapsed().as_nanos();
     let c = verif::trace_counters();
     let p = verif::path_counters();
+    let lo = verif::link_op_counters();
     let dropped = DROPPED.load(Ordering::Relaxed);
     format!(
-        "{{\"shape\": \"{shape}\", \"n\": {n}, \"last\": {last}, \"adoptions\": {adoptions}, \"destroyed_before_final_drop\": {before_final}, \"destroyed\": {dropped}, \"traces\": {}, \"pops\": {}, \"visits\": {}, \"scanned\": {}, \"group_teardowns\": {}, \"final_drop_ns\": {ns}, \"earlier_releases_ns\": {release_ns}}}",
-        c[0], c[1], c[2], c[3], p[2]
+        "{{\"shape\": \"{shape}\", \"n\": {n}, \"last\": {last}, \"adoptions\": {adoptions}, \"destroyed_before_final_drop\": {before_final}, \"destroyed\": {dropped}, \"traces\": {}, \"pops\": {}, \"visits\": {}, \"scanned\": {}, \"group_teardowns\": {}, \"link_eq\": {}, \"link_hash\": {}, \"final_drop_ns\": {ns}, \"earlier_releases_ns\": {release_ns}}}",
+        c[0], c[1], c[2], c[3], p[2], lo[0], lo[1]
     )
 }
 
